@@ -82,6 +82,47 @@ def expected_views(fields):
     return view(lambda f: f[0] == 't'), view(lambda f: f[0] == 'f'), view(lambda f: True)
 
 
+def readbacks(upload, n):
+    """the content of an upload read back in several ways: [(how, bytes)]; `n` = expected length"""
+    f = upload.file
+    out = []
+
+    def run(how, fn):
+        try:
+            f.seek(0)
+            out.append((how, fn()))
+        except Exception as e:
+            out.append((how, 'raised %s' % type(e).__name__))
+
+    def loop(k):
+        def go():
+            parts, guard = [], 0
+            while True:
+                p = f.read(k)
+                guard += 1
+                if not p or guard > n + 8:
+                    return b''.join(parts)
+                parts.append(p)
+        return go
+    run('read()', lambda: f.read())
+    run('read(-1)', lambda: f.read(-1))
+    run('read(None)', lambda: f.read(None))
+    run('read(0)+read()', lambda: f.read(0) + f.read())
+    for k in sorted({1, 7, max(1, n - 1), max(1, n), n + 1}):
+        run('read(%s) loop' % ('len%+d' % (k - n) if k >= n - 1 and n > 8 else k), loop(k))
+    run('partial read then read(-1)', lambda: f.read(max(1, n // 2)) + f.read(-1))
+    run('partial read then read()', lambda: f.read(1) + f.read())
+    run('seek(0,2);tell', lambda: b'x' * f.seek(0, 2))
+    run('seek(-k,2);read', lambda: (f.seek(-min(3, n), 2), f.read())[1] if n else b'')
+    if hasattr(f, 'readline'):
+        run('readline loop', lambda: b''.join(iter(f.readline, b'')))
+    if hasattr(f, '__iter__'):
+        run('iteration', lambda: b''.join(f))
+    buf = io.BytesIO()
+    run('save()', lambda: (upload.save(buf, chunk_size=5), buf.getvalue())[1])
+    return out
+
+
 def data_zones(boundary, fields):
     """[(start, end)] of every part's data in encode_form(...)"""
     pos, out = 2 + len(boundary.encode('utf8')), []
@@ -111,10 +152,10 @@ class C07(Check):
                         'are C04/C05 (the theorem takes the parts they yield, whose concatenation is the encoded body)')
     anchors = ['ombott/request_pkg/multipart.py', 'ombott/request_pkg/body_mixin.py', 'ombott/request_pkg/helpers.py']
     rule = ('field lists (0-5 parts; names/filenames with ; = space backslash non-ASCII, empty, duplicates, option look-alikes; '
-            'empty/UTF-8 values; binary contents with CR LF dashes and delimiter prefixes) x RFC 2046 boundaries (quoted when '
+            'empty/UTF-8 values; binary contents with CR LF dashes and delimiter prefixes; adjacent and trailing backslashes in names and file names) x RFC 2046 boundaries (quoted when '
             'needed) x max_memfile_size around the text budget and the body length (spilling) x Content-Length/chunked x read '
             'schedules x accessor orders; plus unit streams for parse_header, splitlines, UTF-8, boundary extraction, '
-            'BytesIOProxy, iter_items. non-trivial = a name/filename with a separator or non-ASCII character, or a repeated name')
+            'BytesIOProxy, iter_items; the oracle reads every upload back by read(), read(-1), read(None), read(k) loops, partial reads, seek/tell, iteration and save(). non-trivial = a name/filename with a separator or non-ASCII character, or a repeated name')
     assumptions = ['re (FieldStorage._patt, MULTIPART_BOUNDARY_PATT) behaves as the direct functions pattIter / boundaryOf '
                    '(probed tables in Gen/Forms.lean, checked by decide; exercised by the correspondence)',
                    'str.lower only matters on ASCII letters for the option keys name/filename',
@@ -378,6 +419,26 @@ class C07(Check):
             wins = [(u.file._st, u.file._end) for u in ups if hasattr(u, 'file')]
             if wins != zs:
                 return 'window', f'upload windows of {k!r} are {wins}, the parts\' data is at {zs}'
+        # byte-exact content however the handler reads the upload
+        sent = {}
+        for f in fields:
+            if f[0] == 'f':
+                sent.setdefault(f[1], []).append(f[4])
+        for k, contents in sent.items():
+            v = files.get(k)
+            ups = v if isinstance(v, list) else [v]
+            for u, content in zip(ups, contents):
+                for how, got_b in readbacks(u, len(content)):
+                    want_b = content
+                    if how == 'seek(0,2);tell':
+                        want_b = b'x' * len(content)
+                    elif how == 'seek(-k,2);read':
+                        want_b = content[len(content) - min(3, len(content)):] if content else b''
+                    if got_b != want_b:
+                        site = how.split('(')[0].split(' ')[0].split(';')[0]
+                        shown = got_b if isinstance(got_b, str) else got_b[:60].hex() + ('...' if len(got_b) > 60 else '')
+                        return f'upload-read:{site}', (f'upload {k!r} read back by {how} gives {shown} ({len(got_b)} bytes), '
+                                                       f'posted {len(content)} bytes {content[:60].hex()}')
         return None
 
     def _cases(self, rng, n):
@@ -421,7 +482,9 @@ class C07(Check):
                  [('t', 'a', '1'), ('t', 'a', '2'), ('t', 'b', ''), ('t', 'a', '3')],
                  [('f', 'u', 'a.bin', None, b'\r\n--bn'), ('f', 'u', 'b.bin', 'x/y', b'--bnd--\r\n\r\n-')],
                  [('t', 'a b', 'é'), ('t', 'a\\b', '\r\n'), ('f', 'é', 'ф;=.txt', 'image/png', bytes(range(256)))],
-                 [('t', 'name', 'x'), ('t', 'filename', 'y'), ('t', 'a; filename=b', 'z')], []]
+                 [('t', 'name', 'x'), ('t', 'filename', 'y'), ('t', 'a; filename=b', 'z')], [],
+                 [('t', 'a\\\\b', 'v'), ('f', 'n\\', '\\\\server\\share\\x.bin', 'application/octet-stream', b'\\\\'),
+                  ('f', '\\\\', 'dir\\', None, b'0123456789abcdef')]]
         for b in ('bnd', 'a b', "a=b(c)", '-'):
             for fields in fixed:
                 for chunked in (False, True):
